@@ -44,8 +44,107 @@ DIVERGENCES = [
              "minInterval value, then the Daemon service will wait until at least that interval has passed from the last time the service started.'",
          code="time.NewTimer(0) (implementations.go:399) fires at once and its tick is never read; timer.Reset does not drain the channel "
               "(go.mod says go 1.20: pre-1.23 timer channels), so the first select takes the stale tick: the first restart is immediate for any minInterval",
-         demo="fixes/demos/srv_daemon_divergences", patch="fixes/srv-daemon-drain-initial-tick.diff"),
+         demo="fixes/demos/srv_daemon_divergences",
+         patch="none proposed: draining the initial tick makes the code follow the documentation but srv's own TestDaemon/CloseTriggers and "
+               "TestDaemon/ShutdownTriggers (minInterval 10ms, Close after 5ms, expect >= 2 base runs) rely on the immediate first restart"),
 ]
+
+
+WRAP_DIVERGENCES = [
+    dict(name="wait-service-may-drop-last-panic", const="WaitPanicRace", cfg="Wrap_doc_waitpanic.cfg",
+         doc="srv.Wait doc (implementations.go:114-117): 'The Service's wait function returns an error that aggregates all errors (e.g. panics) "
+             "encountered by the constituent wait functions.'",
+         code="the goroutine of an operation defers erc.Recover(ec) before wg.Done() (implementations.go:138-139): on a panic wg.Done() runs first, so "
+              "when that operation's return is what lets the service finish, Cleanup's `wg.Wait(); ec.Resolve()` races with the Add of the panic and "
+              "Wait() may report nil (a race: the number of deviating probes varies from run to run and may be 0)",
+         demo="fixes/demos/srv_wrapper_divergences", patch="fixes/srv-wait-recover-before-done.diff"),
+    dict(name="worker-returns-notstarted-while-another-start-is-in-progress", const="WorkerEarly", cfg="Wrap_doc_early.cfg",
+         doc="Service.Worker doc (service.go:233-241): 'Worker runs the service, starting it if needed and then waiting for the service to return.'",
+         code="a Worker called while another caller's Start is still inside the service's sync.Once gets ErrServiceAlreadyStarted from Start (ignored) and, "
+              "because isStarted is only set at the end of the Once (service.go:123), ErrServiceNotStarted from waitFor: it returns that error at once "
+              "although the service is running (placed deterministically with the yield point srv.Service.Start.launched)",
+         demo="fixes/demos/srv_wrapper_divergences", patch="none proposed (waitFor could wait for the Once instead of reading isStarted; C10 reads "
+              "Wait()'s ErrServiceNotStarted as documented behaviour, so the change belongs to the maintainer)"),
+]
+
+
+def wrap_nontrivial(b):
+    ops = [x["op"] for x in b["steps"]]
+    return any(o in ops for o in ("work", "workhold", "start")) and any(o in ops for o in ("cancel", "close", "finish", "closeq", "stop"))
+
+
+def wrap_part(rep, quick, seed, binary, shards, env):
+    """Service.Worker / srv.Wait / srv.Broker: WrapAbs schedules replayed by vh-srv replay-x03w"""
+    jobs = [("Wrap_edge.cfg", dict(workers=1, timeout=900), "edge", "edge cover: Service.Worker (service new / started elsewhere / finished x outcome x mode, two caller "
+             "contexts, a Worker racing another caller's Start through the yield point), srv.Wait (2 operations x {ok, panic} x {gate, ctx}; add before / while "
+             "running / after the end, queue close, cancel, Close), srv.Broker (start, Stop, cancel, Close, probe)"),
+            ("Wrap_sim.cfg", dict(workers=1, timeout=900, simulate=dict(num=150 if quick else 4000), depth=20, seed=seed), "sim",
+             "random schedules: 3 units, 3 Workers, 2 Waits")]
+    with cf.ThreadPoolExecutor(max_workers=2) as ex:
+        futs = [ex.submit(tlc.run_tlc, COMP, "WrapAbs", "X03_" + cfg, files={"X03_" + cfg: variant(cfg)}, **kw) for cfg, kw, _, _ in jobs]
+        results = [f.result() for f in futs]
+    out = {}
+    for (cfg, kw, kind, note), r in zip(jobs, results):
+        rep.add_tlc("WrapAbs/" + cfg, r, note)
+        if not r.ok:
+            rep.infra_error("behaviour generation WrapAbs/%s failed: %s" % (cfg, r.out[-1500:]))
+            return []
+        out[kind] = sc.maximal(r.tagged.get("BEH", []))
+    edge = sc.sample(out["edge"], 1000 if quick else 20000, seed)
+    rep.cov.setdefault("edge_behaviours", {})["WrapAbs"] = dict(maximal=len(out["edge"]), replayed=len(edge))
+    behs = edge + out["sim"]
+    wargs = ["replay-x03w"]
+    _, results = sc.replay_collect(rep, binary, wargs, behs, shards=shards, env_extra=env, label="x03-wrap", nontrivial=wrap_nontrivial, timeout=2400)
+    by = {}
+    for i, b in enumerate(behs):
+        c = b["cfg"]["comp"]
+        by.setdefault(c, [0, 0])
+        by[c][0] += 1
+        if i in results and results[i].get("ok") and not results[i].get("inconclusive"):
+            by[c][1] += 1
+    hooked = [i for i, b in enumerate(behs) if any(x["op"] == "workhold" for x in b["steps"])]
+    rep.cov["wrappers"] = dict(per_component={c: dict(behaviours=v[0], conforming=v[1]) for c, v in by.items()},
+                               worker_behaviours_through_the_yield_point=len(hooked),
+                               workers_that_returned_notstarted=sum(1 for i in hooked if results.get(i, {}).get("early")))
+    concl = [i for i in hooked if i in results and not results[i].get("inconclusive")]
+    rep.self_test("the yield point inside the Worker's Start is reached (workhold behaviours are conclusive)",
+                  bool(hooked) and len(concl) >= 0.9 * len(hooked), "%d of %d" % (len(concl), len(hooked)))
+    pick = next((b for b in behs if b["cfg"]["comp"] == "wait" and any(x["op"] == "start" for x in b["steps"])
+                 and any(x["op"] == "add" for x in b["steps"][:2])), None)
+    if pick is None:
+        rep.self_test("wrapper replayer rejects a wrong invocation count", False, "no suitable behaviour")
+    else:
+        bad = copy.deepcopy(pick)
+        k = max(i for i, x in enumerate(bad["steps"]) if x["op"] in ("start", "add"))
+        bad["steps"] = bad["steps"][:k + 1]
+        for c in bad["steps"][k]["exp"]["cnt"]:
+            c["allow"] = [3]
+        rc, outs, err = harness.run(binary, wargs, [dict(n=0, beh=bad)], timeout=120)
+        res = [o for o in outs if o.get("n") == 0 and "begin" not in o]
+        rep.self_test("wrapper replayer rejects a wrong invocation count", bool(res) and res[0].get("ok") is False, str(res[0] if res else {})[:200])
+    s = next((b for b in behs if b["cfg"]["comp"] == "worker" and len(b["steps"]) >= 4), None)
+    if s:
+        rep.sample(dict(kind="replayed behaviour (Service.Worker)", behaviour=s))
+    # documented readings, replayed as probes (never judged)
+    div = []
+    for d in WRAP_DIVERGENCES:
+        r = tlc.run_tlc(COMP, "WrapAbs", d["cfg"], workers=1, timeout=600)
+        rep.add_tlc("WrapAbs/" + d["cfg"], r, "documented reading of %s (%s = \"doc\"): probes, not judged" % (d["name"], d["const"]))
+        if not r.ok:
+            rep.infra_error("probe generation %s failed: %s" % (d["cfg"], r.out[-800:]))
+            continue
+        pb = sc.maximal(r.tagged.get("BEH", []))
+        items = [dict(n=i, beh=b) for i, b in enumerate(pb)]
+        outs, _ = harness.run_sharded(binary, wargs, items, shards=min(shards, 4), timeout=900)
+        res = [o for o in outs if "n" in o and "begin" not in o]
+        bad = [o for o in res if not o.get("ok")]
+        ex = bad[0] if bad else None
+        div.append(dict(name=d["name"], documented=d["doc"], actual=d["code"], demonstration=d["demo"], proposed_patch=d["patch"],
+                        behaviours_under_documented_reading=len(items), real_code_deviates_in=len(bad),
+                        status="code differs from the documented reading" if bad else "code followed the documented reading in this run",
+                        example=dict(key=ex.get("key"), what=ex.get("what"), cfg=pb[ex["n"]]["cfg"],
+                                     steps=[(x["op"], x["id"], x["arg"]) for x in pb[ex["n"]]["steps"][:ex.get("step", 0) + 1]]) if ex else None))
+    return div
 
 
 def nontrivial(b):
@@ -72,7 +171,8 @@ def model_check(rep):
 def reading():
     """X03_PANICLOSES / X03_STALETICK = doc | code | either (default either) select the reading the schedules are judged with,
     e.g. X03_PANICLOSES=doc for a tree with fixes/srv-daemon-keep-errors-on-panic.diff applied."""
-    return dict(PanicLoses=os.environ.get("X03_PANICLOSES", "either"), StaleTick=os.environ.get("X03_STALETICK", "either"))
+    return dict(PanicLoses=os.environ.get("X03_PANICLOSES", "either"), StaleTick=os.environ.get("X03_STALETICK", "either"),
+                WorkerEarly=os.environ.get("X03_WORKEREARLY", "either"), WaitPanicRace=os.environ.get("X03_WAITPANICRACE", "either"))
 
 
 def variant(cfg):
@@ -184,6 +284,87 @@ def self_tests(rep, binary, behs):
                           str({kk: v for kk, v in r.items() if kk != "hist"})[:200])
 
 
+def trace_key(hist, info):
+    ev = info.get("event", {})
+    if ev.get("ev") == "ret" and ev.get("op") == "wait":
+        return "daemon/trace/wait-result"
+    if ev.get("ev") in ("cb_enter", "cb_exit") and ev.get("fn") == "run":
+        return "daemon/trace/base-run-order"
+    if ev.get("ev") == "cb_enter":
+        return "daemon/trace/%s-order" % ev.get("fn")
+    if ev.get("ev") == "end":
+        return "daemon/trace/incomplete-at-end"
+    return "daemon/trace/unexplained-" + str(ev.get("ev"))
+
+
+def traces(rep, binary, quick, seed, results, shards):
+    """code -> model: the event logs of the stepped replays and free-running recordings, judged by DaemonTrace"""
+    hists = [r["hist"] for r in results.values() if r.get("ok") and not r.get("inconclusive") and not r.get("truncated") and r.get("hist")]
+    hists = sc.sample(hists, 600 if quick else 6000, seed)
+    n = 600 if quick else 12000
+    k = min(shards, 6)
+    rec = []
+    with cf.ThreadPoolExecutor(max_workers=k) as ex:
+        futs = [ex.submit(harness.run, binary, ["record-x03d", str(n // k), str(seed * 1000 + i)], None, 1800) for i in range(k)]
+        for f in futs:
+            rc, outs, err = f.result()
+            if rc != 0:
+                rep.infra_error("recorder failed: " + err[-800:])
+            rec += [o["hist"] for o in outs if "hist" in o]
+    incomplete = sum(1 for h in rec if h and h[-1].get("complete") == 0)
+    rep.cov["daemon_traces"] = dict(stepped=len(hists), recorded=len(rec), recorded_not_quiescent=incomplete,
+                                    recorded_with_stop_racing_a_run=sum(1 for h in rec if _stop_races(h)))
+    sc.validate_histories(rep, COMP, "DaemonTrace", "DaemonTrace.cfg", hists + rec, label="daemon/trace", shards=min(shards, 6), key_fn=trace_key)
+    if rec:
+        rep.sample(dict(kind="recorded free-running history (daemon)", events=max(rec, key=len)[:24]))
+    # self-tests of the trace binding: corrupted histories must be rejected at the corrupted event
+    tests = []
+    for h in rec:
+        if any(e["ev"] == "cb_exit" and e["fn"] == "run" and e["out"] == "panic" for e in h):
+            continue
+        stop = next((j for j, x in enumerate(h) if x["ev"] == "act" or (x["ev"] == "call" and x["op"] == "close")), len(h))
+        for i, e in enumerate(h):
+            if e["ev"] == "ret" and e["op"] == "wait":
+                sure = [t for t in e["is"] if t[0] == "e" and t[1:].isdigit() and any(
+                    j < stop for j, x in enumerate(h) if x["ev"] == "cb_enter" and x["fn"] == "run" and x["n"] == int(t[1:]) + 1)]
+                if sure:
+                    b = copy.deepcopy(h)
+                    b[i]["is"] = [x for x in b[i]["is"] if x != sure[0]]
+                    tests.append(("DaemonTrace rejects a Wait result that misses an error collected before a restart", b, "ret"))
+                    break
+        if tests:
+            break
+    for h in rec:
+        i1 = next((i for i, e in enumerate(h) if e["ev"] == "cb_exit" and e["fn"] == "run" and e["n"] == 1 and e["out"] == "ok"), None)
+        i2 = next((i for i, e in enumerate(h) if e["ev"] == "cb_enter" and e["fn"] == "run" and e["n"] == 2), None)
+        if i1 is not None and i2 is not None:
+            b = copy.deepcopy(h)
+            b[i1]["out"] = "canceled"
+            tests.append(("DaemonTrace rejects a restart after a base run returned a context error", b, "cb_enter"))
+            b = copy.deepcopy(h)
+            b[i1], b[i2] = b[i2], b[i1]
+            tests.append(("DaemonTrace rejects two base runs in progress at once", b, "cb_enter"))
+            break
+    if len(tests) < 3:
+        rep.self_test("DaemonTrace rejects corrupted histories", False, "no suitable recorded history (%d tests built)" % len(tests))
+    for name, bad, stop_ev in tests:
+        ok, r, rej = sc.validate_batch(COMP, "DaemonTrace", "DaemonTrace.cfg", [bad], 600)
+        rep.self_test(name, ok is True and bool(rej) and rej[0][1].get("event", {}).get("ev") == stop_ev, str(rej)[:200])
+
+
+def _stop_races(h):
+    """a stop (cancel / Close) was issued while a base run was in progress"""
+    running = False
+    for e in h:
+        if e["ev"] == "cb_enter" and e.get("fn") == "run":
+            running = True
+        elif e["ev"] == "cb_exit" and e.get("fn") == "run":
+            running = False
+        elif running and (e["ev"] == "act" or (e["ev"] == "call" and e.get("op") == "close")):
+            return True
+    return False
+
+
 def run(rep, tier, seed, replay_file=None):
     quick = tier == "quick"
     shards = int(os.environ.get("X03_SHARDS", "6" if quick else "10"))
@@ -205,7 +386,19 @@ def run(rep, tier, seed, replay_file=None):
     ]
     build = lambda: harness.build(BIN)
     if replay_file:
-        if not sc.rerun_saved(rep, replay_file, build):
+        d = json.load(open(replay_file))
+        rp = d.get("replay", {})
+        if "history" in rp and str(d.get("key", "")).startswith("daemon/trace/"):
+            # a recorded history DaemonTrace rejected: validated again (the recording itself is the evidence)
+            ok, r, rej = sc.validate_batch(COMP, "DaemonTrace", "DaemonTrace.cfg", [rp["history"]], 600)
+            rep.add_tlc("DaemonTrace/DaemonTrace.cfg", r, "saved history")
+            if ok is None:
+                rep.infra_error("trace validation did not complete: " + str(rej)[:600])
+            elif rej:
+                rep.violation(trace_key(rp["history"], rej[0][1]), "history not explainable by DaemonTrace: %s" % json.dumps(rej[0][1])[:300], rp)
+            else:
+                rep.add_cases([rp["history"]])
+        elif not sc.rerun_saved(rep, replay_file, build):
             rep.infra_error("replay file has no behaviour")
         return
     if not model_check(rep):
@@ -226,8 +419,10 @@ def run(rep, tier, seed, replay_file=None):
     if s:
         rep.sample(dict(kind="replayed behaviour (daemon)", behaviour=s))
     self_tests(rep, binary, behs)
+    traces(rep, binary, quick, seed, results, shards)
     div = divergence_probes(rep, binary, min(shards, 4))
-    # the second half of X03: context helpers and wrappers (spec/srv/HelpersAbs.tla)
+    div += wrap_part(rep, quick, seed, binary, shards, env)
+    # context helpers (spec/srv/HelpersAbs.tla)
     try:
         from props import x03_helpers as xh
     except ImportError:
@@ -250,4 +445,6 @@ def run(rep, tier, seed, replay_file=None):
                        "(quick: seeded sample; thorough: seeded sample of 30000 of the maximal ones) and random deeper schedules, replayed step by step against srv.Daemon "
                        "with a harness-supplied base service (counter, per-run sentinel errors, contexts remembered) and judged at quiescence: number of "
                        "base runs, base runs in progress, Shutdown / Cleanup / handler counts, context of past and current runs, Wait blocked / its "
-                       "aggregate (required and forbidden sentinels, panic flag, nil-ness); non-trivial = started, a base run returned, and a stop or Wait step")
+                       "aggregate (required and forbidden sentinels, panic flag, nil-ness); non-trivial = started, a base run returned, and a stop or Wait step; "
+                       "code -> model: the event log of every stepped replay and free-running recordings (base runs return by themselves after random yields with "
+                       "random outcomes, Wait / Close / cancel from other goroutines, GOMAXPROCS 1-6) are validated by DaemonTrace (non-trivial = more than 6 events)")
